@@ -9,6 +9,7 @@ package dnsserver
 // written to an in-memory connection.
 
 import (
+	"bufio"
 	"bytes"
 	"context"
 	"encoding/base64"
@@ -23,6 +24,7 @@ import (
 	"strconv"
 	"strings"
 	"sync"
+	"testing/iotest"
 	"time"
 
 	"github.com/AdguardTeam/AdGuardDNS/internal/dnsserver/netext"
@@ -767,16 +769,128 @@ func c01DoQOnce(rig *c01Rig, streamBytes []byte, d c01StreamDelivery) (obs c01TO
 
 // c01HTTP serves one HTTP request with the real DoH handler.
 func c01HTTP(rig *c01Rig, method, target string, body []byte, jsonBody bool) (obs c01TObs) {
+	obs = c01HTTPOnce(rig, method, target, body, jsonBody, c01BodyFraming{name: "declared"})
+	if method != http.MethodPost || body == nil || jsonBody {
+		return obs
+	}
+	// The same POST with every other framing of its body.
+	primary := c01HTTPShape(obs)
+	for _, fr := range c01BodyFramings(len(body)) {
+		o := c01HTTPOnce(rig, method, target, body, false, fr)
+		want := primary
+		switch {
+		case fr.declaredDelta < 0:
+			// The server is told a shorter body: that is the message cut short.
+			want = c01HTTPShape(c01HTTPOnce(rig, method, target, body[:len(body)+fr.declaredDelta], false, c01BodyFraming{name: "declared"}))
+		case fr.declaredDelta > 0:
+			// The body ends before the declared length: an HTTP-level error
+			// is as good as the answer to the message.
+			if len(o.Msgs) == 0 && o.HTTPStatus != http.StatusOK && o.Panicked == "" {
+				continue
+			}
+		}
+		if got := c01HTTPShape(o); got != want {
+			obs.Findings = append(obs.Findings, vrt.F("doh-post/treatment-depends-on-body-framing",
+				"POST %s with a body of %d octets: content length declared -> %s; body sent as %s -> %s", target, len(body), want, fr.name, got)...)
+		}
+	}
+
+	return obs
+}
+
+// c01BodyFraming is one way the body of a POST reaches the handler.
+type c01BodyFraming struct {
+	name string
+	// unknown: http.Request.ContentLength is -1 and the body is an opaque
+	// reader (HTTP/2 and HTTP/3 without content-length).
+	unknown bool
+	// oneByte makes the opaque reader return one octet per Read.
+	oneByte bool
+	// chunks > 0: the request is parsed by http.ReadRequest from HTTP/1.1
+	// octets with "Transfer-Encoding: chunked" and chunks of that many octets.
+	chunks int
+	// declaredDelta != 0: parsed by http.ReadRequest with a Content-Length that
+	// is off by that much.
+	declaredDelta int
+}
+
+func c01BodyFramings(n int) (fs []c01BodyFraming) {
+	fs = []c01BodyFraming{
+		{name: "undeclared length (ContentLength -1)", unknown: true},
+		{name: "undeclared length, one octet per Read", unknown: true, oneByte: true},
+		{name: "chunked, one chunk", chunks: max(n, 1)},
+		{name: "chunked, two chunks", chunks: max((n+1)/2, 1)},
+	}
+	if n <= 600 {
+		fs = append(fs, c01BodyFraming{name: "chunked, one octet per chunk", chunks: 1})
+	} else {
+		fs = append(fs, c01BodyFraming{name: "chunked, 97-octet chunks", chunks: 97})
+	}
+	if n >= 3 {
+		fs = append(fs, c01BodyFraming{name: "Content-Length 3 less than the body", declaredDelta: -3})
+	}
+	fs = append(fs, c01BodyFraming{name: "Content-Length 5 more than the body", declaredDelta: 5})
+
+	return fs
+}
+
+func c01HTTPShape(o c01TObs) (sh string) {
+	sh = fmt.Sprintf("http %d responses=%d panicked=%v garbled=%v", o.HTTPStatus, len(o.Msgs), o.Panicked != "", o.Garbled != "")
+	for _, m := range o.Msgs {
+		sh += fmt.Sprintf(" [id=%d %s q=%s an=%d ns=%d]", m.Id, dns.RcodeToString[m.Rcode], vdns.Question(m), len(m.Answer), len(m.Ns))
+	}
+
+	return sh
+}
+
+type c01OpaqueReader struct{ io.Reader }
+
+// c01HTTPOnce serves one HTTP request with the real DoH handler.
+func c01HTTPOnce(rig *c01Rig, method, target string, body []byte, jsonBody bool, fr c01BodyFraming) (obs c01TObs) {
 	h := &httpHandler{srv: rig.doh, localAddr: c01TCPLocal}
-	var rd io.Reader
-	if body != nil {
-		rd = bytes.NewReader(body)
+	var hr *http.Request
+	switch {
+	case fr.chunks > 0 || fr.declaredDelta != 0:
+		raw := &bytes.Buffer{}
+		fmt.Fprintf(raw, "%s %s HTTP/1.1\r\nHost: dns.example\r\nContent-Type: %s\r\nAccept: %s\r\n", method, target, MimeTypeDoH, MimeTypeDoH)
+		if fr.chunks > 0 {
+			raw.WriteString("Transfer-Encoding: chunked\r\n\r\n")
+			for i := 0; i < len(body); i += fr.chunks {
+				c := body[i:min(i+fr.chunks, len(body))]
+				fmt.Fprintf(raw, "%x\r\n", len(c))
+				raw.Write(c)
+				raw.WriteString("\r\n")
+			}
+			raw.WriteString("0\r\n\r\n")
+		} else {
+			fmt.Fprintf(raw, "Content-Length: %d\r\n\r\n", len(body)+fr.declaredDelta)
+			raw.Write(body)
+		}
+		var err error
+		hr, err = http.ReadRequest(bufio.NewReader(raw))
+		if err != nil {
+			vrt.Fatalf("c01: http.ReadRequest of a harness request: %v", err)
+		}
+	default:
+		var rd io.Reader
+		switch {
+		case body == nil:
+		case fr.unknown && fr.oneByte:
+			rd = c01OpaqueReader{iotest.OneByteReader(bytes.NewReader(body))}
+		case fr.unknown:
+			rd = c01OpaqueReader{bytes.NewReader(body)}
+		default:
+			rd = bytes.NewReader(body)
+		}
+		hr = httptest.NewRequest(method, "https://dns.example"+target, rd)
+		if fr.unknown && hr.ContentLength != -1 {
+			vrt.Fatalf("c01: httptest.NewRequest declared the length of an opaque body (%d)", hr.ContentLength)
+		}
+		if body != nil {
+			hr.Header.Set("Content-Type", MimeTypeDoH)
+		}
+		hr.Header.Set("Accept", MimeTypeDoH)
 	}
-	hr := httptest.NewRequest(method, "https://dns.example"+target, rd)
-	if body != nil {
-		hr.Header.Set("Content-Type", MimeTypeDoH)
-	}
-	hr.Header.Set("Accept", MimeTypeDoH)
 	hr.RemoteAddr = "198.51.100.7:40000"
 	rec := httptest.NewRecorder()
 	obs.Panicked = vrt.Catch(func() { h.ServeHTTP(rec, hr) })
